@@ -69,8 +69,25 @@ fn bad(what: &str) -> PyErr {
     PyTypeError::new_err(format!("lmcore: wrong kind of value for {}", what))
 }
 
+/// bit pattern with NaN canonicalised (quiet, positive, zero payload)
+fn cb32(x: f32) -> u32 {
+    if x.is_nan() {
+        0x7FC0_0000
+    } else {
+        x.to_bits()
+    }
+}
+
+fn cb64(x: f64) -> u64 {
+    if x.is_nan() {
+        0x7FF8_0000_0000_0000
+    } else {
+        x.to_bits()
+    }
+}
+
 fn bits(xs: &[f32]) -> String {
-    xs.iter().map(|x| x.to_bits().to_string()).collect::<Vec<_>>().join(",")
+    xs.iter().map(|x| cb32(*x).to_string()).collect::<Vec<_>>().join(",")
 }
 
 fn rows_f32<K: lightmotif::num::ArrayLength>(m: &DenseMatrix<f32, K>) -> String {
@@ -127,11 +144,11 @@ fn dense_u32<A: Alphabet>(rows: &[Vec<u32>]) -> PyResult<DenseMatrix<u32, A::K>>
 
 #[pyfunction]
 fn f32bits(x: f64) -> u32 {
-    (x as f32).to_bits()
+    cb32(x as f32)
 }
 #[pyfunction]
 fn f64bits(x: f64) -> u64 {
-    x.to_bits()
+    cb64(x)
 }
 #[pyfunction]
 fn f32val(b: u32) -> f64 {
@@ -143,7 +160,7 @@ fn f64val(b: u64) -> f64 {
 }
 #[pyfunction]
 fn f64_to_f32bits(b: u64) -> u32 {
-    (f64::from_bits(b) as f32).to_bits()
+    cb32(f64::from_bits(b) as f32)
 }
 #[pyfunction]
 fn symbols(protein: bool) -> String {
@@ -232,11 +249,11 @@ fn bg_new(protein: bool, vals: Vec<u32>) -> PyResult<Vec<u32>> {
     guard("Background::new", || {
         if protein {
             Background::<Protein>::new(garr::<Protein>(&vals)?)
-                .map(|b| b.frequencies().iter().map(|x| x.to_bits()).collect())
+                .map(|b| b.frequencies().iter().map(|x| cb32(*x)).collect())
                 .map_err(|_| CoreErr::new_err("invalid"))
         } else {
             Background::<Dna>::new(garr::<Dna>(&vals)?)
-                .map(|b| b.frequencies().iter().map(|x| x.to_bits()).collect())
+                .map(|b| b.frequencies().iter().map(|x| cb32(*x)).collect())
                 .map_err(|_| CoreErr::new_err("invalid"))
         }
     })
@@ -245,17 +262,17 @@ fn bg_new(protein: bool, vals: Vec<u32>) -> PyResult<Vec<u32>> {
 #[pyfunction]
 fn bg_uniform(protein: bool) -> Vec<u32> {
     if protein {
-        Background::<Protein>::uniform().frequencies().iter().map(|x| x.to_bits()).collect()
+        Background::<Protein>::uniform().frequencies().iter().map(|x| cb32(*x)).collect()
     } else {
-        Background::<Dna>::uniform().frequencies().iter().map(|x| x.to_bits()).collect()
+        Background::<Dna>::uniform().frequencies().iter().map(|x| cb32(*x)).collect()
     }
 }
 
 #[pyfunction]
 fn weight_bg(w: PyRef<CoreVal>) -> PyResult<Vec<u32>> {
     match &w.v {
-        V::WeightD(m) => Ok(m.background().frequencies().iter().map(|x| x.to_bits()).collect()),
-        V::WeightP(m) => Ok(m.background().frequencies().iter().map(|x| x.to_bits()).collect()),
+        V::WeightD(m) => Ok(m.background().frequencies().iter().map(|x| cb32(*x)).collect()),
+        V::WeightP(m) => Ok(m.background().frequencies().iter().map(|x| cb32(*x)).collect()),
         _ => Err(bad("weight_bg")),
     }
 }
@@ -328,8 +345,8 @@ fn revcomp(s: PyRef<CoreVal>) -> PyResult<CoreVal> {
 #[pyfunction]
 fn max_score(s: PyRef<CoreVal>) -> PyResult<u32> {
     guard("ScoringMatrix::max_score", || match &s.v {
-        V::ScoreD(m) => Ok(m.max_score().to_bits()),
-        V::ScoreP(m) => Ok(m.max_score().to_bits()),
+        V::ScoreD(m) => Ok(cb32(m.max_score())),
+        V::ScoreP(m) => Ok(cb32(m.max_score())),
         _ => Err(bad("max_score")),
     })
 }
@@ -420,11 +437,11 @@ fn score_positions(s: PyRef<CoreVal>, seq: PyRef<CoreVal>) -> PyResult<Vec<u32>>
     guard("ScoringMatrix::score_position", || match (&s.v, &seq.v) {
         (V::ScoreD(m), V::SeqD(q, _)) => {
             let n = (q.len() + 1).saturating_sub(m.len());
-            Ok((0..n).map(|i| m.score_position(q, i).to_bits()).collect())
+            Ok((0..n).map(|i| cb32(m.score_position(q, i))).collect())
         }
         (V::ScoreP(m), V::SeqP(q, _)) => {
             let n = (q.len() + 1).saturating_sub(m.len());
-            Ok((0..n).map(|i| m.score_position(q, i).to_bits()).collect())
+            Ok((0..n).map(|i| cb32(m.score_position(q, i))).collect())
         }
         _ => Err(bad("score_positions")),
     })
@@ -446,13 +463,13 @@ fn scores_len(sc: PyRef<CoreVal>) -> PyResult<usize> {
 fn scores_list(sc: PyRef<CoreVal>) -> PyResult<Vec<u32>> {
     guard("StripedScores index", || {
         let s = as_scores(&sc)?;
-        Ok((0..s.max_index()).map(|i| s[i].to_bits()).collect())
+        Ok((0..s.max_index()).map(|i| cb32(s[i])).collect())
     })
 }
 
 #[pyfunction]
 fn scores_max(sc: PyRef<CoreVal>) -> PyResult<Option<u32>> {
-    guard("StripedScores::max", || Ok(as_scores(&sc)?.max().map(|x| x.to_bits())))
+    guard("StripedScores::max", || Ok(as_scores(&sc)?.max().map(cb32)))
 }
 
 #[pyfunction]
@@ -470,8 +487,8 @@ fn scores_threshold(sc: PyRef<CoreVal>, t: u32) -> PyResult<Vec<usize>> {
 #[pyfunction]
 fn dist_pvalue(s: PyRef<CoreVal>, score: u32) -> PyResult<u64> {
     guard("ScoreDistribution::pvalue", || match &s.v {
-        V::ScoreD(m) => Ok(m.to_score_distribution().pvalue(f32::from_bits(score)).to_bits()),
-        V::ScoreP(m) => Ok(m.to_score_distribution().pvalue(f32::from_bits(score)).to_bits()),
+        V::ScoreD(m) => Ok(cb64(m.to_score_distribution().pvalue(f32::from_bits(score)))),
+        V::ScoreP(m) => Ok(cb64(m.to_score_distribution().pvalue(f32::from_bits(score)))),
         _ => Err(bad("dist_pvalue")),
     })
 }
@@ -479,8 +496,8 @@ fn dist_pvalue(s: PyRef<CoreVal>, score: u32) -> PyResult<u64> {
 #[pyfunction]
 fn dist_score(s: PyRef<CoreVal>, pvalue: u64) -> PyResult<u32> {
     guard("ScoreDistribution::score", || match &s.v {
-        V::ScoreD(m) => Ok(m.to_score_distribution().score(f64::from_bits(pvalue)).to_bits()),
-        V::ScoreP(m) => Ok(m.to_score_distribution().score(f64::from_bits(pvalue)).to_bits()),
+        V::ScoreD(m) => Ok(cb32(m.to_score_distribution().score(f64::from_bits(pvalue)))),
+        V::ScoreP(m) => Ok(cb32(m.to_score_distribution().score(f64::from_bits(pvalue)))),
         _ => Err(bad("dist_score")),
     })
 }
@@ -488,8 +505,8 @@ fn dist_score(s: PyRef<CoreVal>, pvalue: u64) -> PyResult<u32> {
 #[pyfunction]
 fn tfm_pvalue(s: PyRef<CoreVal>, score: u64) -> PyResult<u64> {
     guard("TfmPvalue::pvalue", || match &s.v {
-        V::ScoreD(m) => Ok(TfmPvalue::new(m).pvalue(f64::from_bits(score)).to_bits()),
-        V::ScoreP(m) => Ok(TfmPvalue::new(m).pvalue(f64::from_bits(score)).to_bits()),
+        V::ScoreD(m) => Ok(cb64(TfmPvalue::new(m).pvalue(f64::from_bits(score)))),
+        V::ScoreP(m) => Ok(cb64(TfmPvalue::new(m).pvalue(f64::from_bits(score)))),
         _ => Err(bad("tfm_pvalue")),
     })
 }
@@ -497,8 +514,8 @@ fn tfm_pvalue(s: PyRef<CoreVal>, score: u64) -> PyResult<u64> {
 #[pyfunction]
 fn tfm_score(s: PyRef<CoreVal>, pvalue: u64) -> PyResult<u64> {
     guard("TfmPvalue::score", || match &s.v {
-        V::ScoreD(m) => Ok(TfmPvalue::new(m).score(f64::from_bits(pvalue)).to_bits()),
-        V::ScoreP(m) => Ok(TfmPvalue::new(m).score(f64::from_bits(pvalue)).to_bits()),
+        V::ScoreD(m) => Ok(cb64(TfmPvalue::new(m).score(f64::from_bits(pvalue)))),
+        V::ScoreP(m) => Ok(cb64(TfmPvalue::new(m).score(f64::from_bits(pvalue)))),
         _ => Err(bad("tfm_score")),
     })
 }
@@ -516,7 +533,7 @@ fn scan_all(s: PyRef<CoreVal>, seq: PyRef<CoreVal>, threshold: u32, block_size: 
             let mut sc = lightmotif::scan::Scanner::<Dna, _, _>::new(m, &q);
             sc.threshold(f32::from_bits(threshold));
             sc.block_size(block_size);
-            Ok(sc.map(|h| (h.position(), h.score().to_bits())).collect())
+            Ok(sc.map(|h| (h.position(), cb32(h.score()))).collect())
         }
         (V::ScoreP(_), V::SeqP(_, _)) => Err(CoreErr::new_err("protein")),
         (V::ScoreD(_), V::SeqP(_, _)) | (V::ScoreP(_), V::SeqD(_, _)) => Err(CoreErr::new_err("alphabet")),
